@@ -9,7 +9,8 @@ BOUNDS = ("assembler.main on the in-memory host FS; program templates with symbo
           "symbolic operand values, image sizes {3, 255, 256, 2300} via RMB/FCB padding; NAM / --name present or absent, "
           "names of 1-12 characters in both cases; each output switch alone and all combined; END with and without an "
           "operand.  The written files are judged by the independent oracles (O-CAS parse, O-DECB fsck), the raw binary "
-          "by equality with the assembled image")
+          "by equality with the assembled image, AND listed by the tool's own reader (one file, same bytes); a symbolic "
+          "16-bit word inside the image (tape sync pair, disk markers); END operand forms label, label+-k, constant")
 OUTSIDE = "programs larger than a few KiB; --print/--symbols formatting"
 ASSUMPTIONS = c06.ASSUMPTIONS
 
@@ -49,7 +50,8 @@ def make(sid, nam, cli_name, switches, pad, end_operand, with_org=True, word=Fal
         if not ref.ok:
             return True, dict(info, note="program rejected: " + ref.describe())
         img = image(ref.program)
-        entry = {"START": o, "ENTRY": o + 2, "LAST": o + 5 + wlen + pad, None: o, "": o}[end_operand]
+        entry = {"START": o, "ENTRY": o + 2, "LAST": o + 5 + wlen + pad, None: o, "": o, "START+2": o + 2, "LAST-1": o + 4 + wlen + pad,
+                 "$1234": 0x1234}[end_operand]
         want_name = nam if nam is not None else cli_name
         kw = {}
         for s in switches:
@@ -174,7 +176,7 @@ def obligations(tier, seed):
     for pad in ([250, 251, 2295] if not full else [0, 1, 249, 250, 251, 2294, 2295, 2296, 4600]):
         obs.append(make("pad%d" % pad, "PADDED", None, ["to_bin", "to_cas", "to_dsk"], pad, None))
     obs.append(make("pad52000", "BIGONE", None, ["to_dsk", "to_bin"], 52000, None))
-    for endop in ["", "START", "ENTRY", "LAST"]:
+    for endop in ["", "START", "ENTRY", "LAST", "START+2", "LAST-1", "$1234"]:
         obs.append(make("end:%s" % (endop or "none"), "ENDER", None, ["to_cas", "to_dsk"], 3, endop))
     obs.append(make("word", "WORDY", None, ["to_bin", "to_cas", "to_dsk"], 0, None, word=True))
     obs.append(make("word-pad", "WORDY", None, ["to_cas", "to_dsk"], 251, "ENTRY", word=True))
